@@ -38,9 +38,6 @@ theorem C03_atomic (closure undo : List Ev) (closureOk : Bool) (s : St)
   · exact Or.inl (h.1 p hp)
   · right; rw [hp]; exact clean_recover _ h.2
 
-/-- Well-formedness of a step: closure and rollback are built from bracketed operations. -/
-def TxnStep.WF (t : TxnStep) : Prop := wellNested 0 t.closure = true ∧ wellNested 0 t.undo = true
-
 /-- Whole histories: at every crash point of every step of any history the reopened image is the
 image before or after THAT step — in particular everything completed before the interrupted step is
 preserved. -/
@@ -58,14 +55,6 @@ theorem C03_history (steps : List TxnStep) :
     · have hclean := (C03_single_commit_point t.closure t.undo t.closureOk s hs ht.1 ht.2).2
       exact ih _ hclean (fun t' ht' => hwf t' (by simp [ht'])) x hx
 
-/-- Every piece of code built from brackets is well nested (what `WF` asks for). -/
-theorem wellNested_br (body : List Ev) (h : wellNested 1 body = true) (hn : netDepth 1 body = 1) :
-    wellNested 0 (br body) = true := by
-  show wellNested 1 (body ++ [Ev.commit]) = true
-  apply wellNested_append
-  · exact h
-  · rw [hn]; rfl
-
 -- Non-vacuity: the storage events of `remove().ids(1)` on {1, 2, 1→2 with one value} and of an
 -- insert of a node with a value are well nested, start from a reachable clean state, and really
 -- contain several storage-level transactions.
@@ -77,16 +66,13 @@ example : (txnFixed Code.removeNodeWithEdge [] true St.init).final.data 0 = 1 :=
 
 /-! ## The unchanged code -/
 
-/-- two storage-level operations, each with its own bracket -/
-def cexClosure : List Ev := br [Ev.write 1 1] ++ br [Ev.write 2 1]
-
 /-- On the unchanged code (`transaction_mut` opens no storage transaction) a crash between the two
 operations of one query reopens to an image that is neither the one before (cell 1 differs) nor the
 one after (cell 2 differs). -/
 theorem C03_counterexample :
-    ∃ p ∈ (txnLegacy cexClosure [] true St.init).crashStates,
+    ∃ p ∈ (txnLegacy Code.cexClosure [] true St.init).crashStates,
       recover p 1 ≠ St.init.data 1 ∧
-      recover p 2 ≠ (txnLegacy cexClosure [] true St.init).final.data 2 := by
+      recover p 2 ≠ (txnLegacy Code.cexClosure [] true St.init).final.data 2 := by
   decide
 
 /-- Hence the atomicity statement is false for `txnLegacy`. -/
@@ -97,7 +83,7 @@ theorem C03_legacy_not_atomic_counterexample :
           recover p = s.data ∨ recover p = (txnLegacy closure undo closureOk s).final.data) := by
   intro h
   obtain ⟨p, hp, h1, h2⟩ := C03_counterexample
-  rcases h cexClosure [] true St.init clean_init (by decide) (by decide) p hp with h' | h'
+  rcases h Code.cexClosure [] true St.init clean_init (by decide) (by decide) p hp with h' | h'
   · exact h1 (congrFun h' 1)
   · exact h2 (congrFun h' 2)
 
